@@ -431,3 +431,33 @@ package encoding
 //@   requires forall i :: 0 <= i && i < len(src) ==> feq(decOne(ints[i], e), src[i])
 //@   requires forall i :: 0 <= i && i < len(ints) ==> back[i] == decOne(ints[i], e)
 //@   ensures  forall i :: 0 <= i && i < len(src) ==> feq(back[i], src[i])
+//
+// ---- byte-string blocks (bytes.go): the decoder never faults on arbitrary bytes ----
+// lengths come from an adaptive-width block, the payload from a (possibly compressed) block; every string handed back is
+// a window of the decoder's own buffer that lies inside it.
+//@ func BytesBlockDecoder.Decode
+//@   property C11
+//@   mode int
+//@   requires bbd != nil
+//@   modifies bbd.data
+//@   modifies bbd.data[len(bbd.data):cap(bbd.data)]
+//@   modifies dst[len(dst):cap(dst)]
+//@   ensures  count: result1 == nil && itemsCount < (1<<56) ==> len(result0) == len(dst) + int(itemsCount)
+//@   ensures  keeps: len(result0) >= len(dst)
+//@   loop 0 invariant len(data) >= 0 && len(dst) == old(len(dst)) + range_i && ((sameobj(dst, old(dst)) && off(dst) == off(old(dst)) && cap(dst) == cap(old(dst))) || fresh(dst))
+//@ func BytesBlockDecoder.DecodeWithTail
+//@   property C11
+//@   mode int
+//@   requires bbd != nil
+//@   modifies bbd.data
+//@   modifies bbd.data[len(bbd.data):cap(bbd.data)]
+//@   modifies dst[len(dst):cap(dst)]
+//@   ensures  count: result2 == nil && itemsCount < (1<<56) ==> len(result0) == len(dst) + int(itemsCount)
+//@   ensures  keeps: len(result0) >= len(dst)
+//@   loop 0 invariant len(data) >= 0 && len(dst) == old(len(dst)) + range_i && ((sameobj(dst, old(dst)) && off(dst) == off(old(dst)) && cap(dst) == cap(old(dst))) || fresh(dst))
+//@ func BytesBlockDecoder.Reset
+//@   property C11
+//@   mode int
+//@   requires bbd != nil
+//@   modifies bbd.data
+//@   ensures  len(bbd.data) == 0
